@@ -38,6 +38,53 @@ D0{a(1)(1260)+{omega(782)0{pi+,pi-},pi+},K-}   0 0.3 0.01   0 0.2 0.01
 }
 
 
+# abstract resonance names of AmpSession.tla -> (AmpGen name, PDG id); first mother line numbers of each file
+RES = {"r1": ("K*(892)bar0", -313), "r2": ("rho(770)0", 113), "r3": ("a(1)(1260)+", 20213), "r4": ("K(1)(1270)bar-", -10323),
+       "r5": ("rho(1450)0", 100113), "r6": ("KPi00", 998111), "r7": ("PiPi00", 998101), "r8": ("omega(782)0", 223)}
+FIRST = {"fA": (0.196037, -0.390311), "fB": (0.813449, -2.60325), "fC": (0.361958, 1.99329), "fD": (0.642781, 1.69828)}
+
+
+def prog_names():
+    """programmatic names of the resonances, from the particle package (reference data)"""
+    from particle import Particle
+    from . import ampio
+    # the special particles are loaded by the reader on first use; load them here for the reference look-up
+    import decaylanguage.data as data
+    if 998100 not in Particle.all() and 998101 not in {int(p.pdgid) for p in Particle.all()}:
+        Particle.load_table(str(data.basepath / "MintDalitzSpecialParticles.csv"), append=True)
+    return {Particle.from_pdgid(i).programmatic_name: r for r, (_, i) in RES.items()}
+
+
+def project(cls, f, res, pn):
+    """-> event of AmpSession trace mode"""
+    import cmath
+    import re
+    ev = {"cls": cls, "f": f, "declared": ["n/a"], "coupling": "n/a"}
+    a, b = FIRST[f]
+    amp = None
+    if res["kind"] == "read":
+        amp = complex(res["lines"][0][1]) if res["lines"] else None
+        tol = 1e-9
+    elif res["kind"] == "text":
+        decl = re.findall(r"^\s*(?:Variable )?(\w+)_M\s*(?:\{|= Variable\()", res["text"], re.M)
+        ev["declared"] = sorted({pn.get(d, "?" + d) for d in decl})
+        m = re.search(r'(?:mkvar|Variable)\("[^"]*_r", (?:true, |false, )?([-+0-9.eE]+)', res["text"])
+        m2 = re.search(r'(?:mkvar|Variable)\("[^"]*_i", (?:true, |false, )?([-+0-9.eE]+)', res["text"])
+        if m and m2:
+            amp = complex(float(m.group(1)), float(m2.group(1)))
+        tol = 2e-5
+    else:
+        return ev
+    if amp is not None:
+        fits = []
+        if abs(amp - cmath.rect(a, b)) <= tol * max(1, abs(a)):
+            fits.append("F")
+        if abs(amp - complex(a, b)) <= tol * max(1, abs(a)):
+            fits.append("T")
+        ev["coupling"] = fits[0] if len(fits) == 1 else "?" + "".join(fits)
+    return ev
+
+
 def child(args):
     calls, hashseed = args
     env = dict(os.environ, PYTHONHASHSEED=str(hashseed), PYTHONPATH=str(ROOT))
@@ -127,6 +174,22 @@ def run(tier, seed, replay_path=None):
                     o.violate("C20:same-result-whatever-was-read-or-converted-before", {"history": [list(x) for x in h[: i + 1]]},
                               {"call": [cls, f], "diff": _diff(canon(base[(cls, f, 0)]), canon(got))})
                     break
+        # the recorded histories as traces of AmpSession.tla (declared resonance variables, coupling kind)
+        pn = prog_names()
+        traces = [[project(cls, f, res, pn) for (cls, f), res in zip(h, rs)] for h, rs in zip(chosen, hres)]
+        tf = wd / "sessions.json"
+        tf.write_text(json.dumps(traces))
+        rt = tlc.run("AmpSession", tlc.cfg_text(constants=dict(Variant="per_read", MaxLen=0, EmitMode="trace")), workdir=wd,
+                     env={"TRACE_FILE": str(tf)})
+        o.add_tlc(rt, "validate the recorded histories against AmpSession (trace mode)")
+        acc = {x["tid"] for x in rt.by_tag("ACCEPT")}
+        rejt = {x["tid"] for x in rt.by_tag("REJECT")}
+        if acc | rejt != set(range(1, len(traces) + 1)) or acc & rejt:
+            raise Machinery(f"trace verdicts not total ({rt.stdout_path})")
+        for x in rt.by_tag("FAIL"):
+            h = chosen[x["tid"] - 1]
+            o.violate(x["clause"], {"history": [list(c) for c in h]}, {"diag": x.get("diag"), "trace": traces[x["tid"] - 1]})
+        o.notes["session_traces_validated"] = len(traces)
         for (calls, _), r1, r2_ in zip(again, hres, ares):
             o.traces += 1
             if r1 != r2_:
